@@ -201,6 +201,13 @@ func c19Run(c c19in) func(w *World) []Violation {
 			spec.Method = "GET"
 			wantStatus = 101
 			threaded = c.ending
+		case "client-abort-during-drain":
+			// the client gives up while a pause is draining the target (another request keeps the drain open)
+			spec.Host = "drain.example.com"
+			spec.Plan = "hang"
+			spec.CancelAfter = 400 * time.Millisecond
+			wantSvc, wantTarget, wantStatus = "drainme", "dt:80", 499
+			threaded = c.ending
 		case "refused-by-draining-target":
 			// the only target of the service is draining when the request claims it (the state the open C02/C07
 			// finding reaches by interleaving; set directly here): proxy-generated 503, no target used
@@ -238,6 +245,13 @@ func c19Run(c c19in) func(w *World) []Violation {
 			time.Sleep(100 * time.Millisecond)
 			w.Net.CloseConnsOf(target)
 			time.Sleep(50 * time.Millisecond)
+		case "client-abort-during-drain":
+			vsched.GoTagged("client", func() { o = w.Do(spec) })
+			vsched.GoTagged("client", func() { w.Do(ReqSpec{ID: id + "-other", Host: "drain.example.com", Path: "/other", Plan: "delay=900ms"}) })
+			time.Sleep(100 * time.Millisecond)
+			w.Pause("drainme", 3*time.Second, 5*time.Second) // returns when the other request is done (0.9s); the abort happens at 0.4s
+			w.Resume("drainme")
+			time.Sleep(10 * time.Millisecond)
 		case "refused-by-draining-target":
 			var tg *Target
 			w.Router.serviceLock.RLock()
@@ -355,7 +369,7 @@ func c19Run(c c19in) func(w *World) []Violation {
 func c19Cases(tier string) []ECase {
 	endings := []string{"served-0", "served-1", "served-100k", "served-chunked", "served-cookies", "early-hints-then-404", "no-service", "tls-refused", "redirect", "stopped", "stopped-custom",
 		"no-healthy-target", "413", "500-response-too-large", "502-close", "502-garbage", "504-target-timeout", "cut-mid-body", "client-abort-waiting",
-		"paused-released", "paused-out", "drained-504", "upgrade-closed-by-target", "refused-by-draining-target"}
+		"paused-released", "paused-out", "drained-504", "upgrade-closed-by-target", "refused-by-draining-target", "client-abort-during-drain"}
 	var cases []ECase
 	for _, e := range endings {
 		for _, m := range []string{"GET", "POST", "HEAD"} {
@@ -377,7 +391,7 @@ func checkC19(t *testing.T, job *Job, res *Result) {
 	if job.Replay != nil {
 		tier = job.Replay.Tier
 	}
-	res.Rule = "24 endings (served with 5 body shapes, 103 early hints before the final status, 404, TLS refused, redirect, stopped built-in/custom page, no healthy target, 413, 500 over limit, 502 close/garbage, 504 target timeout, cut mid-body, client abort (499), paused then released, paused-out 504, drained 504, upgrade closed by the target, refused by a draining target) x method {GET, POST, HEAD} x query {none, a=1;b} x client request id given or not x 5 log-header configurations; slog default handler replaced by a capturing handler before Server.buildHandler; oracle: exactly one Request record per request with status, byte count, method, host, path, query, request id, service, target and configured headers equal to what the client and the target observed"
+	res.Rule = "25 endings (served with 5 body shapes, 103 early hints before the final status, 404, TLS refused, redirect, stopped built-in/custom page, no healthy target, 413, 500 over limit, 502 close/garbage, 504 target timeout, cut mid-body, client abort (499), paused then released, paused-out 504, drained 504, upgrade closed by the target, refused by a draining target, client abort while a pause is draining the target) x method {GET, POST, HEAD} x query {none, a=1;b} x client request id given or not x 5 log-header configurations; slog default handler replaced by a capturing handler before Server.buildHandler; oracle: exactly one Request record per request with status, byte count, method, host, path, query, request id, service, target and configured headers equal to what the client and the target observed"
 	res.Bounds = "see rule"
 	runE(t, job, res, &ESpec{Prop: "C19", Setup: c19Setup, Cases: c19Cases(tier), Batch: 120, Log: true})
 	// the same requests against a proxy restored from the state file those deployments wrote
